@@ -96,10 +96,18 @@ func (m *Model) parserCases(fn *ssa.Function, tokVals []int64, maxVars, maxCases
 			return false, false
 		}
 		ip.call = func(c *ssa.Call, args []any) (any, bool) {
-			switch c.Call.StaticCallee() {
-			case nt:
+			// the next token from the source: the lexer's NextToken, directly or through an interface the parser holds
+			isNext := c.Call.StaticCallee() == nt
+			if c.Call.IsInvoke() && len(args) > 0 {
+				if res := c.Call.Signature().Results(); res.Len() == 1 && types.Identical(res.At(0).Type(), tokT) && c.Call.Signature().Params().Len() == 0 {
+					isNext = true
+				}
+			}
+			if isNext {
 				lexed++
 				return mkTok(fmt.Sprintf("t%d", lexed)), true
+			}
+			switch c.Call.StaticCallee() {
 			case ps:
 				cur := int64(-1)
 				if ct, ok := p.fields[fCur].(*iStruct); ok {
